@@ -332,6 +332,19 @@ def judge_term(ctx, s, origin):
     return False
 
 
+def text_reads_back(text, s):
+    """does this text parse (in the context declaring the free variables of s) to a term equal to s ?"""
+    from syntax import parser
+    import io, contextlib
+    set_ctx([s])
+    try:
+        with contextlib.redirect_stdout(io.StringIO()):
+            s2 = S.tm_shadow(parser.parse_term(text))
+    except Exception:
+        return False
+    return S.aeq(s, s2)
+
+
 def memo_differential(ctx, s):
     """text with the AST memo as found == text with an empty memo"""
     from syntax import printer, pprint
@@ -352,8 +365,14 @@ def memo_differential(ctx, s):
             continue
         ctx.count('memo_differentials')
         if warm != cold:
-            ctx.violation('history:memoised-text-differs-from-fresh-text', 'term %s prints as %r with the memo and %r without' % (
-                S.tm_str(s, True), warm, cold), {'kind': 'memo', 'term': S.jsonable(s), 'unicode': u})
+            # the property is about the RESULT of print-then-parse: a memo entry left by an alpha-equivalent term may
+            # legitimately spell a bound variable differently; what it may not do is change what the text reads back as
+            if text_reads_back(warm, s):
+                ctx.count('memo_text_differs_but_reads_back_equal')
+                continue
+            ctx.violation('history:memoised-text-does-not-read-back', 'term %s prints as %r with the memo (which does not parse '
+                          'back to the term) and as %r without' % (S.tm_str(s, True), warm, cold),
+                          {'kind': 'memo', 'term': S.jsonable(s), 'unicode': u})
 
 
 def gen_types(ctx, rng, g):
@@ -422,6 +441,11 @@ def gen_thm_and_items(ctx, rng, g):
             ctx.count('history_reprints', len(comps))
             for k_, (b0, a0, p0) in enumerate(zip(before, after, plain)):
                 if not (b0 == a0 == p0):
+                    same = all(text_reads_back(x, props[k_]) for x in (b0, a0, p0))
+                    set_ctx(props)
+                    if same:
+                        ctx.count('history_text_differs_but_reads_back_equal')
+                        continue
                     ctx.violation('history:text-of-a-term-depends-on-what-was-printed-before', 'term %s prints as %r, then after printing a sequent / argument list containing it as %r (plain text %r)' % (
                         S.tm_str(props[k_]), b0, a0, p0), {'kind': 'thm', 'props': [S.jsonable(p) for p in props], 'unicode': u, 'highlight': hl})
                     break
